@@ -18,12 +18,14 @@ by the driver on every generated program. The proof goes pass by pass:
 `stage3_inv` (passes 1–3, `P1.lean`), `pass4_inv` (block duplication, `P4.lean`, uses the DFS
 theorems of `Base/Reach`), `pass5_wf` (`P5.lean`).
 "Building the control flow graph never fails": `WF` implies the precondition `Cfg.CfgReady` /
-`Cfg.WellFormedNormalized` of the CFG model (`Base/Cfg.lean`; `C08.Props` proves that `buildCfgE`
-succeeds under it), given the jump-shape assumption of `graph.rs` on the raw blocks; the real
-`get_program_cfg` is run on every normalised program by the harness.
+`Cfg.WellFormedNormalized` of the CFG model (`Base/Cfg.lean`), given the jump-shape assumption of
+`graph.rs` on the raw blocks; with `C08.buildCfg_spec` this gives `normalizeBasic_cfg_ok`: the model of
+`get_program_cfg` returns a graph on the normalised program. The real `get_program_cfg` is run on
+every normalised program by the harness.
 -/
 import CweModel.C09.P5
 import CweModel.Base.Cfg
+import CweModel.C08.Props
 open CweModel.IR CweModel.Reach
 namespace CweModel.C09
 
@@ -129,6 +131,14 @@ theorem normalizeBasic_cfgReady (progTid : Tid) (p : Program) (H : TidDiscipline
     Cfg.CfgReady (normalizeBasic progTid p) ∧ Cfg.WellFormedNormalized (normalizeBasic progTid p) :=
   ⟨wf_cfgReady progTid p _ (normalizeBasic_wf progTid p H) hsh,
    wf_wellFormedNormalized progTid p _ (normalizeBasic_wf progTid p H) hsh⟩
+
+/-- **C09-cfg-ok.** Building the control flow graph of the normalised program does not fail (model of
+`get_program_cfg` in `Base/Cfg.lean`, success under `CfgReady` by `C08.buildCfg_spec`). -/
+theorem normalizeBasic_cfg_ok (progTid : Tid) (p : Program) (H : TidDiscipline progTid p)
+    (hsh : ∀ s ∈ p.subs, ∀ b ∈ s.term.blocks, shapeOk b = true) :
+    ∃ g, Cfg.buildCfgE (normalizeBasic progTid p) = .ok g := by
+  obtain ⟨g, hg, _⟩ := C08.buildCfg_spec (normalizeBasic_cfgReady progTid p H hsh).1
+  exact ⟨g, hg⟩
 
 /-! ### Non-vacuity: the hypotheses hold on a concrete raw program with every kind of defect
 
